@@ -28,7 +28,7 @@ import (
 // ---- records ----
 
 type step struct {
-	Op    string   `json:"op"` // burst | wait | quiet | read | restart
+	Op    string   `json:"op"` // burst | wait | quiet | read | restart | join | off | offwait | on | storage-fail | storage-heal
 	N     int      `json:"n,omitempty"`
 	Kinds []string `json:"kinds,omitempty"` // burst: kind of each write
 }
@@ -45,8 +45,12 @@ type spec struct {
 
 // ev is one entry of the event log; Seq is its position.
 type ev struct {
-	Seq  int    `json:"seq"`
-	Kind string `json:"k"` // round | provide-begin | provide-end | currentid | upload | write-start | write-ack | write-fail | read | restart | drain | end
+	Seq int `json:"seq"`
+	// round | provide-begin | provide-end | currentid | upload | write-start | write-ack | write-fail | read | restart | drain | end |
+	// gate-off | gate-on (the script flips the upload-enabled predicate) | tick-off (the uploader asked the predicate and was told
+	// "not enabled") | li-off (LastIndex called although the preceding tick was told "not enabled": not a round) |
+	// storage-fail | storage-heal (every Upload fails in between)
+	Kind string `json:"k"`
 	Inst int    `json:"inst,omitempty"`
 	Li   uint64 `json:"li,omitempty"`
 	ID   string `json:"id,omitempty"`
@@ -103,12 +107,14 @@ func (l *evlog) setLi(seq int, li uint64, err error) {
 	l.mu.Unlock()
 }
 
-func (l *evlog) rounds() int {
+func (l *evlog) rounds() int { return l.count("round") }
+
+func (l *evlog) count(kind string) int {
 	l.mu.Lock()
 	defer l.mu.Unlock()
 	n := 0
 	for _, e := range l.evs {
-		if e.Kind == "round" {
+		if e.Kind == kind {
 			n++
 		}
 	}
@@ -129,9 +135,12 @@ type storage struct {
 	rng   *rand.Rand
 	pct   int
 	drain atomic.Bool
-	inst  *atomic.Int64
-	cur   string
-	objs  []stored
+	// failUploads: every Upload fails (a storage outage the script opens and closes)
+	failUploads atomic.Bool
+	nForced     atomic.Int64
+	inst        *atomic.Int64
+	cur         string
+	objs        []stored
 }
 
 func (s *storage) String() string { return "c37-harness-storage" }
@@ -148,6 +157,16 @@ func (s *storage) roll() int {
 func (s *storage) Upload(ctx context.Context, r io.Reader, id string) error {
 	p := s.roll()
 	inst := int(s.inst.Load())
+	if s.failUploads.Load() && !s.drain.Load() {
+		// scripted outage: alternately refused and broken midway
+		if s.nForced.Add(1)%2 == 0 {
+			s.log.add(ev{Kind: "upload", Inst: inst, ID: id, Err: "injected: refused (outage)", Inj: true})
+			return errors.New("c37: injected upload failure (outage, refused)")
+		}
+		n, _ := io.CopyN(io.Discard, r, 2048)
+		s.log.add(ev{Kind: "upload", Inst: inst, ID: id, N: int(n), Err: "injected: broken midway (outage)", Inj: true})
+		return errors.New("c37: injected upload failure (outage, midway)")
+	}
 	if p < s.pct/2 {
 		s.log.add(ev{Kind: "upload", Inst: inst, ID: id, Err: "injected: refused", Inj: true})
 		return errors.New("c37: injected upload failure (refused)")
@@ -192,12 +211,21 @@ type provider struct {
 	log   *evlog
 	st    *storage
 	inst  *atomic.Int64
+	// lastTickOff: the uploader's most recent question "is upload enabled?" was
+	// answered no. The uploader asks on every tick, in the goroutine that then
+	// runs the round, so a LastIndex call while this is set does not start a
+	// round (nothing may be expected of it); it is logged as li-off.
+	lastTickOff *atomic.Bool
 }
 
 func (p *provider) LastIndex() (uint64, error) {
 	// the round's place in the log is taken before the index is read, so that
 	// every write acknowledged earlier in the log was applied before the read
-	seq := p.log.add(ev{Kind: "round", Inst: int(p.inst.Load())})
+	kind := "round"
+	if p.lastTickOff.Load() {
+		kind = "li-off"
+	}
+	seq := p.log.add(ev{Kind: kind, Inst: int(p.inst.Load())})
 	li, err := p.inner.LastIndex()
 	p.log.setLi(seq, li, err)
 	return li, err
@@ -270,7 +298,19 @@ func runOne(sp spec) (res runRes) {
 	}
 	var inst atomic.Int64
 	st := &storage{log: lg, rng: rand.New(rand.NewPCG(uint64(sp.Seed), uint64(sp.Run)*7919+13)), pct: sp.FailPct, inst: &inst}
-	pv := &provider{inner: store.NewProvider(n.Store, sp.Vacuum, sp.Compress), log: lg, st: st, inst: &inst}
+	var gateOff, lastTickOff atomic.Bool
+	pv := &provider{inner: store.NewProvider(n.Store, sp.Vacuum, sp.Compress), log: lg, st: st, inst: &inst, lastTickOff: &lastTickOff}
+	// the upload-enabled predicate handed to Uploader.Start (rqlited passes
+	// Store.IsLeader): switched by the script, every "no" is logged
+	enabled := func() bool {
+		if gateOff.Load() {
+			lastTickOff.Store(true)
+			lg.add(ev{Kind: "tick-off", Inst: int(inst.Load())})
+			return false
+		}
+		lastTickOff.Store(false)
+		return true
+	}
 
 	var cancel context.CancelFunc
 	var done chan struct{}
@@ -279,7 +319,8 @@ func runOne(sp spec) (res runRes) {
 		var ctx context.Context
 		ctx, cancel = context.WithCancel(context.Background())
 		up := backup.NewUploader(st, pv, interval)
-		done = up.Start(ctx, nil)
+		lastTickOff.Store(false)
+		done = up.Start(ctx, enabled)
 	}
 	stopUploader := func() bool {
 		cancel()
@@ -296,6 +337,17 @@ func runOne(sp spec) (res runRes) {
 		target := lg.rounds() + k
 		dl := time.Now().Add(90 * time.Second)
 		for lg.rounds() < target {
+			if time.Now().After(dl) {
+				return false
+			}
+			time.Sleep(5 * time.Millisecond)
+		}
+		return true
+	}
+	waitOffTicks := func(k int) bool {
+		target := lg.count("tick-off") + k
+		dl := time.Now().Add(90 * time.Second)
+		for lg.count("tick-off") < target {
 			if time.Now().After(dl) {
 				return false
 			}
@@ -358,6 +410,25 @@ func runOne(sp spec) (res runRes) {
 		case "read":
 			r := cl.Do(n, "GET", "/db/query?level=strong&q="+url.QueryEscape("SELECT COUNT(*) FROM t"), nil, nil)
 			lg.add(ev{Kind: "read", N: r.Status})
+		case "off":
+			// from now on the predicate answers "not enabled"
+			gateOff.Store(true)
+			lg.add(ev{Kind: "gate-off"})
+		case "offwait":
+			// let N ticks pass on which the uploader is told "not enabled"
+			ok = waitOffTicks(s.N)
+		case "join":
+			// every write started so far has been answered
+			wg.Wait()
+		case "on":
+			lg.add(ev{Kind: "gate-on"})
+			gateOff.Store(false)
+		case "storage-fail":
+			st.failUploads.Store(true)
+			lg.add(ev{Kind: "storage-fail"})
+		case "storage-heal":
+			st.failUploads.Store(false)
+			lg.add(ev{Kind: "storage-heal"})
 		case "restart":
 			wg.Wait()
 			if !stopUploader() {
@@ -371,6 +442,11 @@ func runOne(sp spec) (res runRes) {
 	wg.Wait()
 	if ok {
 		st.drain.Store(true)
+		st.failUploads.Store(false)
+		if gateOff.Load() {
+			lg.add(ev{Kind: "gate-on"})
+			gateOff.Store(false)
+		}
 		lg.add(ev{Kind: "drain"})
 		ok = waitRounds(5)
 	}
